@@ -5,8 +5,8 @@
 # `no-failing-input-found` on code whose behaviour is unchanged; the proofs are kept robust against all of these.
 cd "$(dirname "$0")/.." || exit 2
 C=/root/work/micro_repo
-OUTS="--out lean/AioMySensors/Generated/Bodies.lean --stream-out lean/AioMySensors/Generated/StreamBodies.lean --codec-out lean/AioMySensors/Generated/CodecBodies.lean --mqtt-out lean/AioMySensors/Generated/MqttBodies.lean"
-MODS="AioMySensors.Lemmas.BodiesEq AioMySensors.Lemmas.StreamBodiesEq AioMySensors.Lemmas.CodecBodiesEq AioMySensors.Lemmas.MqttBodiesEq"
+OUTS="--out lean/AioMySensors/Generated/Bodies.lean --stream-out lean/AioMySensors/Generated/StreamBodies.lean --codec-out lean/AioMySensors/Generated/CodecBodies.lean --mqtt-out lean/AioMySensors/Generated/MqttBodies.lean --persist-out lean/AioMySensors/Generated/PersistBodies.lean"
+MODS="AioMySensors.Lemmas.BodiesEq AioMySensors.Lemmas.StreamBodiesEq AioMySensors.Lemmas.CodecBodiesEq AioMySensors.Lemmas.MqttBodiesEq AioMySensors.Lemmas.PersistBodiesEq"
 rm -rf "$C"; mkdir -p "$C"; (cd /repo && git archive HEAD) | tar -x -C "$C"
 (cd "$C" && git init -q && git add -A >/dev/null 2>&1 && git -c user.email=x@x -c user.name=x commit -qm base >/dev/null)
 for d in seeded/micro-refactors/*.diff; do
